@@ -62,6 +62,18 @@ def parse(file_path):
 
 
 def write_chain(chain: MHLChain, new_hash_list: MHLHashList):
+    try:
+        _write_chain(chain, new_hash_list)
+    except BaseException:
+        # do not leave the incomplete temporary file behind if the new content could not be written
+        try:
+            os.remove(chain.file_path + ".tmp")
+        except OSError:
+            pass
+        raise
+
+
+def _write_chain(chain: MHLChain, new_hash_list: MHLHashList):
     logger.debug(f'writing "{os.path.basename(chain.file_path)}"...')
 
     """creates a new chain file and writes the xml to disk
